@@ -199,8 +199,10 @@ build_geo(const GeoSpec& sp, int id)
   const int max_abs_ax0 = std::max(-p.get_min_axial_pos_num(0), p.get_max_axial_pos_num(0));
   const int max_abs_tang = std::max(-g->min_tang, g->max_tang);
   const int max_abs_tof = std::max(-g->min_tof, g->max_tof);
-  // (the x/y voxel-size guard of the constructor is the model's: the voxel sizes go over as they are, y then x)
-  t << g->V << " " << vh::hex(g->image->get_grid_spacing()[2]) << " " << vh::hex(g->image->get_grid_spacing()[3]) << " " << (std::fabs(p.get_phi(Bin(0, 0, 0, 0))) <= 1.E-4F ? 1 : 0) << " " << (sp.tof_bins > 0 ? 1 : 0)
+  // (the x/y voxel-size guard of the constructor is the model's: the voxel sizes go over as they are, y then x, then
+  // the index ranges in y and x)
+  t << g->V << " " << vh::hex(g->image->get_grid_spacing()[2]) << " " << vh::hex(g->image->get_grid_spacing()[3]) << " " << g->miny << " " << g->maxy << " "
+    << g->minx << " " << g->maxx << " " << (std::fabs(p.get_phi(Bin(0, 0, 0, 0))) <= 1.E-4F ? 1 : 0) << " " << (sp.tof_bins > 0 ? 1 : 0)
     << " " << (sp.origin_x == 0.F ? 1 : 0) << " " << nppr << " " << g->min_seg << " " << g->max_seg << " " << g->minz << " " << g->maxz
     << " " << std::lround(4 * origin_z / g->vz) << " " << max_abs_ax0 << " " << max_abs_tang << " " << max_abs_tof;
   for (int s = g->min_seg; s <= g->max_seg; ++s)
@@ -715,6 +717,27 @@ oracle_row(const Geo& g, const MatrixCfg& c, const char* mode, const Bin& b, con
       oracle_fail("returned row carries another bin (" + bin_str(r.bin) + "): " + ctx.str());
       return;
     }
+  // does the operation that derives this row exchange the x and y indices?
+  auto exchanges_xy = [&]() {
+    Bin bb = b;
+    unique_ptr<SymmetryOperation> op = pm.get_symmetries_ptr()->find_symmetry_operation_from_basic_bin(bb);
+    BasicCoordinate<3, int> probe = make_coordinate(0, 1, 2);
+    op->transform_image_coordinates(probe);
+    return std::abs(probe[2]) == 2;
+  };
+  // known class: the interpolating matrix on an image whose index ranges in x and y differ, with the x/y exchanging
+  // symmetries in force (the ray tracing matrix confines its rows to the largest centred circle / square)
+  auto known_unequal_xy_ranges = [&](const std::string& what) {
+    if (!(c.kind == 1 && (g.miny != g.minx || g.maxy != g.maxx) && effective(pm).d90 && exchanges_xy()))
+      return false;
+    known_candidate("interpolation-matrix:unequal-xy-index-ranges:xy-exchanging-symmetry",
+                    "DataSymmetriesForBins_PET_CartesianGrid leaves the symmetries that exchange x and y (do_symmetry_90degrees_min_phi) "
+                    "on for an image whose index ranges in x and y differ; ProjMatrixByBinUsingInterpolation computes the row of the "
+                    "basic bin over the whole (per axis symmetrised) x and y range of the image, so the rows of the views in (45,135] "
+                    "degrees, derived by exchanging the x and y indices, have elements outside the image where it is narrower and lack "
+                    "those where it is wider: first case of this run: " + what + ": " + ctx.str());
+    return true;
+  };
   // exact clauses
   const float ring_spacing = g.pdi->get_scanner_ptr()->get_ring_spacing();
   const float half_extent = g.sp.R * ring_spacing / 2;
@@ -733,6 +756,8 @@ oracle_row(const Geo& g, const MatrixCfg& c, const char* mode, const Bin& b, con
         }
       if (y < g.miny || y > g.maxy || x < g.minx || x > g.maxx)
         {
+          if (known_unequal_xy_ranges("voxel " + std::to_string(z) + "," + std::to_string(y) + "," + std::to_string(x) + " outside the image in x/y"))
+            return;
           oracle_fail("voxel " + std::to_string(z) + "," + std::to_string(y) + "," + std::to_string(x)
                       + " outside the image in x/y: " + ctx.str());
           return;
@@ -832,14 +857,11 @@ oracle_row(const Geo& g, const MatrixCfg& c, const char* mode, const Bin& b, con
           return;
         }
     }
+  if (known_unequal_xy_ranges(what))
+    return;
   if (g.vx != g.vy && std::fabs(g.vy - g.vx) <= 2.E-3F && e.d90)
     {
-      // does the operation of this bin exchange the x and y indices?
-      Bin bb = b;
-      unique_ptr<SymmetryOperation> op = pm.get_symmetries_ptr()->find_symmetry_operation_from_basic_bin(bb);
-      BasicCoordinate<3, int> probe = make_coordinate(0, 1, 2);
-      op->transform_image_coordinates(probe);
-      if (std::abs(probe[2]) == 2)
+      if (exchanges_xy())
         {
           known_candidate("unequal-xy-voxel-sizes-within-guard-tolerance:xy-exchanging-symmetry",
                           "DataSymmetriesForBins_PET_CartesianGrid takes x and y voxel sizes that differ by up to 2e-3 mm for equal "
@@ -927,6 +949,23 @@ pset_tokens(const MatrixCfg& c)
 static bool reassert_params_before_setup[2] = { false, false };
 // does set_up leave the 90/180 degrees symmetries on when use_actual_detector_boundaries stays on? (told to the model)
 static int impl_keeps_view_symmetries_with_actual = 1;
+// does the constructor of the symmetries switch the x/y exchanging symmetries off for an image whose index ranges in x and y
+// differ? (proposed repair C03-6; told to the model: op `pimpl`)
+static int impl_xy_range_guard = 0;
+
+static void
+probe_xy_range_guard()
+{
+  GeoSpec a; // 8 unmashed views, square voxels, 7 x 9 voxels
+  a.dny = 2;
+  shared_ptr<Geo> g = build_geo(a, 0);
+  all_geos.pop_back();
+  DataSymmetriesForBins_PET_CartesianGrid sym(g->pdi, g->image, true, true, true, true, true);
+  impl_xy_range_guard = sym.using_symmetry_90degrees_min_phi() ? 0 : 1;
+  histo[impl_xy_range_guard ? "P:xy-exchange-off-for-unequal-xy-index-ranges" : "P:xy-exchange-kept-for-unequal-xy-index-ranges"]++;
+  std::fprintf(ops, "pimpl %d\n", impl_xy_range_guard);
+  std::fprintf(out, "ok\n");
+}
 
 static void
 probes(const Geo& elig, const Geo& nonelig, const Geo& coarse_z, const Geo& fine_z)
@@ -1453,6 +1492,7 @@ main(int argc, char** argv)
   out = std::fopen(argv[4], "w");
   orc = std::fopen((std::string(argv[4]) + ".oracle").c_str(), "w");
   int next_id = 1;
+  probe_xy_range_guard();
 
   // ---- fixed geometries (every run), then seeded ones
   std::vector<shared_ptr<Geo>> full; // all bins x all 32 switch combinations
@@ -1549,6 +1589,17 @@ main(int argc, char** argv)
         a.max_delta = 1;
         a.aniso = r;
         a.same_nxy = true;
+        aniso.push_back(build_geo(a, next_id++));
+      }
+    // square voxels, index ranges that differ in x and y (one more voxel at each end in y; one fewer in y: not centred)
+    for (int k = 0; k < 2; ++k)
+      {
+        GeoSpec a;
+        a.N = 8;
+        a.R = 2;
+        a.max_delta = 1;
+        a.ntang = 3;
+        a.dny = k == 0 ? 2 : -1;
         aniso.push_back(build_geo(a, next_id++));
       }
     for (auto& g : aniso)
@@ -1650,7 +1701,7 @@ main(int argc, char** argv)
       {
         Sweep si;
         si.kind = 1;
-        si.flag_stride = (thorough || k < 2) ? 1 : 4;
+        si.flag_stride = (thorough || k < 2 || (is_aniso && full[k]->sp.dny != full[k]->sp.dnx)) ? 1 : 4;
         section_C(*full[k], rng, si);
       }
     }
